@@ -835,7 +835,7 @@ package frugal
 // Serve, after the quit signal: drain NATS, tell Stop, close the work queue, wait for the workers - in
 // exactly this order - and only then return.
 //@ func lib.fNatsServer.Serve(f)
-//@   locals subscriptions, slicelit, subject, rangeindex, sub, err, wg, i, done
+//@   locals subscriptions, subject, rangeindex, sub, err, wg, i, done
 //@   ensures result == nil ==> inorder("recv:lib.fNatsServer.quit", "call:lib.fNatsServer.drainNatsMessages", "send:", "close:lib.fNatsServer.workC", "call:sync.WaitGroup.Wait")
 //@   ensures result == nil ==> ncalls("lib.fNatsServer.drainNatsMessages") == 1 && ncalls("sync.WaitGroup.Wait") == 1
 //@   ensures result == nil ==> sendval(0) == callret("lib.fNatsServer.drainNatsMessages", 0, 0)
@@ -908,7 +908,7 @@ package frugal
 // A frame handed to the registry is a buffer of its own: readFrame allocates it, the read loop passes
 // exactly that buffer on (C01: a parked response is never overwritten by a later one).
 //@ func lib.fAdapterTransport.readFrame(f, framedTransport)
-//@   locals err, slicelit, buff
+//@   locals err, buff
 //@   ensures err == nil ==> fresh(result)
 //@   modifies *
 
